@@ -66,6 +66,8 @@ impl C17 {
     fn case(&self, k: u64, rng: &mut Rng, col: &mut Collector) {
         // machine: new() with code at a low or ordinary address, a generated ELF, or a bundled ELF
         let kind = rng.below(10);
+        // the program image according to the FILE (not according to the loader's area list)
+        let mut image: Vec<(u64, u64)> = Vec::new();
         let made = match kind {
             0..=4 => {
                 let at = *rng.pick(&[0x1000u64, 0x1000, 0x40_0000, 0x2000, 0x10_0000]);
@@ -73,8 +75,18 @@ impl C17 {
                 call(|| Axecutor::new(&code, at, at))
             }
             5..=7 => {
-                let spec = elfgen::gen_spec(rng, false);
+                // ordinary images at 4 MiB, and rich ones (bss-only segments, headers in any order) at the low addresses
+                // where strings and stack are placed
+                let spec = match rng.below(3) {
+                    0 => elfgen::gen_spec(rng, false),
+                    1 => {
+                        let pg = *rng.pick(&[1u64, 2, 3, 4, 8, 0x10]);
+                        elfgen::gen_spec_at(rng, true, Some(pg))
+                    }
+                    _ => elfgen::gen_spec(rng, true),
+                };
                 let bytes = elfgen::write_elf(&spec);
+                image = spec.segs.iter().filter(|s| s.vaddr != 0 && s.memsz > 0).map(|s| (s.vaddr, s.memsz)).collect();
                 call(|| Axecutor::from_binary(&bytes))
             }
             _ => {
@@ -83,6 +95,9 @@ impl C17 {
                     return;
                 }
                 let (_, bytes) = &b[rng.below(b.len() as u64) as usize];
+                if let Some(ph) = elfgen::parse_phdrs(bytes) {
+                    image = ph.iter().filter(|p| p.p_type == elfgen::PT_LOAD && p.vaddr != 0 && p.memsz > 0).map(|p| (p.vaddr, p.memsz)).collect();
+                }
                 call(|| Axecutor::from_binary(bytes))
             }
         };
@@ -241,6 +256,13 @@ impl C17 {
                 return fail(col, "string-area-not-writable", format!("access {}", a.access));
             }
             ranges.push((*p, *l as u64));
+        }
+        // nothing the call created may lie inside the program image
+        let hits = |lo: u64, len: u64| image.iter().find(|(v, m)| (lo as u128) < *v as u128 + *m as u128 && (*v as u128) < lo as u128 + len as u128).copied();
+        for (what, lo, len) in ranges.iter().map(|r| ("string or frame", r.0, r.1)).chain(std::iter::once(("stack area", stack.start, stack.length))) {
+            if let Some((v, m)) = hits(lo, len) {
+                return fail(col, "collides-with-program-image", format!("{} [{:#x},+{:#x}) lies inside the loadable segment [{:#x},+{:#x}) of the file", what, lo, len, v, m));
+            }
         }
         ranges.sort();
         for w in ranges.windows(2) {
